@@ -85,12 +85,16 @@ func (e *Engine) translateFacts() (lemmas []*Obligation) {
 			continue
 		}
 		if fa.Kind == "axiom" {
-			e.axioms = append(e.axioms, axiom{name: fa.Name, text: axText})
+			if !fa.Manual {
+				e.axioms = append(e.axioms, axiom{name: fa.Name, text: axText})
+			}
 		} else {
 			// a lemma is proved from the facts that precede it and may be used by
 			// everything that follows
 			lemmas = append(lemmas, &Obligation{Fn: "$lemma", Name: "lemma." + fa.Name, Kind: "lemma", Tags: fa.Tags, Goal: text, ctx: c, Text: fa.Text, Pos: fmt.Sprintf("contracts_verif.go:%d", fa.Line), AxN: len(e.axioms) + 1})
-			e.axioms = append(e.axioms, axiom{name: fa.Name, text: axText, lemma: true})
+			if !fa.Manual {
+				e.axioms = append(e.axioms, axiom{name: fa.Name, text: axText, lemma: true})
+			}
 		}
 	}
 	return lemmas
@@ -369,6 +373,9 @@ func (e *Engine) discharge(o *Obligation, workdir string, budgetS int, idx int) 
 	}
 	file := filepath.Join(workdir, fmt.Sprintf("q%05d.smt2", idx))
 	o.Outputs = map[string]string{}
+	if o.Kind == "cover" && budgetS > 3 {
+		budgetS = 3 // a vacuity guard is not worth a long wait
+	}
 	start := time.Now()
 	quick := 2
 	if budgetS < quick {
